@@ -10,9 +10,11 @@ variable {R : Type} [ResAlg R]
 /-- every node's usage equals the sum of the workloads recorded on it -/
 def Consistent (s : St R) : Prop := ∀ n, s.usage n = load s n
 
-/-- every recorded instance has a running container: each id is then fully created
+/-- every recorded instance — except the ids in `ex`: workloads that were recorded but NOT running
+before the deployment (stopped by their owner), which neither the deployment nor recovery touches —
+has a running container: each id is then fully created
 (recorded ∧ running), absent (no record, no container) or a leaked container (no record) -/
-def Settled (s : St R) : Prop := ∀ id, recorded s id = true → runningCt s id = true
+def Settled (ex : Nat → Prop) (s : St R) : Prop := ∀ id, ¬ ex id → recorded s id = true → runningCt s id = true
 
 def full (s : St R) (id : Nat) : Bool := recorded s id && runningCt s id
 def absent (s : St R) (id : Nat) : Bool := !recorded s id && !hasCt s id
@@ -20,29 +22,29 @@ def absent (s : St R) (id : Nat) : Bool := !recorded s id && !hasCt s id
 def leaked (s : St R) (id : Nat) : Bool := !recorded s id && hasCt s id
 
 /-- the state C14 asks for after recovery -/
-structure Good (s : St R) : Prop where
+structure Good (ex : Nat → Prop) (s : St R) : Prop where
   consistent : Consistent s
   noMarker : s.markers = []
   walEmpty : s.wal = []
-  settled : Settled s
+  settled : Settled ex s
 
 /-- precondition on the state a deployment starts from -/
-structure Pre (s : St R) : Prop where
+structure Pre (ex : Nat → Prop) (s : St R) : Prop where
   consistent : Consistent s
   noMarker : s.markers = []
   walEmpty : s.wal = []
-  settled : Settled s
+  settled : Settled ex s
   nodup : (s.wls.map (·.id)).Nodup
 
 /-- "every committed effect that is not yet final is covered by a pending event":
 the invariant of the deployment, relative to the list of events still to be replayed. -/
-structure InvG (s : St R) (evs : List Ev) : Prop where
+structure InvG (ex : Nat → Prop) (s : St R) (evs : List Ev) : Prop where
   usage : ∀ n, s.usage n = load s n ∨ covered evs n = true
   marker : ∀ m ∈ s.markers, pendingProc evs m.1 = true
-  inst : ∀ id, recorded s id = true → runningCt s id = false → pendingCreated evs id = true
+  inst : ∀ id, ¬ ex id → recorded s id = true → runningCt s id = false → pendingCreated evs id = true
   nodup : (s.wls.map (·.id)).Nodup
 
-def Inv (s : St R) : Prop := InvG s s.wal
+def Inv (ex : Nat → Prop) (s : St R) : Prop := InvG ex s s.wal
 
 /-! decidable versions over an explicit node / id universe (oracle) -/
 def consistentOn [DecidableEq R] (s : St R) (nodes : List String) : List String :=
